@@ -48,8 +48,10 @@ def _chains(fn):
         cur = n
         labels = {}
         has_else = False
+        bodies = []
         while True:
             seen.add(id(cur))
+            bodies.append(cur.body)
             for k, lab in _label_tests(cur.test):
                 labels.setdefault(k, set()).add(lab)
             if len(cur.orelse) == 1 and isinstance(cur.orelse[0], ast.If):
@@ -57,6 +59,13 @@ def _chains(fn):
                 continue
             has_else = bool(cur.orelse)
             break
+        if not has_else and all(b and isinstance(b[-1], (ast.Return, ast.Continue, ast.Raise, ast.Break)) for b in bodies):
+            # guard-clause form: every tested branch leaves, the statements after the chain handle everything else
+            par = getattr(n, "_parent", None)
+            for field in ("body", "orelse", "finalbody"):
+                seq = getattr(par, field, None)
+                if isinstance(seq, list) and n in seq and seq.index(n) < len(seq) - 1:
+                    has_else = True
         for k, labs in labels.items():
             out.append((k, labs, has_else, n))
     return out
